@@ -272,9 +272,13 @@ def run_job(job, tier, seed):
     reps = 12 if tier == 'quick' else 60
     ob = common.OpBatch()
     for tag, L, exact_names in layouts:
-        check_str_parse(res, tag, L, rng, reps, exact_names)
-        check_repr_eval(res, tag, L, rng, 10 if tier == 'quick' else 40)
-        check_malformed(res, tag, L, ob)
+        st = dict(layout=tag, sig=[int(x) for x in L.sig])
+        with common.guard(res, 'str/parse round trip', st):
+            check_str_parse(res, tag, L, rng, reps, exact_names)
+        with common.guard(res, 'repr/eval round trip', st):
+            check_repr_eval(res, tag, L, rng, 10 if tier == 'quick' else 40)
+        with common.guard(res, 'malformed strings', st):
+            check_malformed(res, tag, L, ob)
         # model correspondence: printer tokens and parser on integer multivectors
         N = L.gaDims
         if len(set(L.names)) != N or not exact_names:
@@ -282,16 +286,17 @@ def run_job(job, tier, seed):
         sidx = int(L._basis_blade_order.bitmap_to_index[0])
         gr = [int(g) for g in L._basis_blade_order.grades]
         for _ in range(reps):
-            v = gen.int_mv(rng, N)
-            M = MultiVector(L, np.array(v, dtype=np.int64))
-            toks = _tokenize(L, str(M))
-            tt = tok_text(toks)
-            terms = ";".join(f"{i}:{1 if gr[i] == 0 else 0}:{c}" for i, c in enumerate(v) if c != 0) or '-'
-            st = dict(layout=tag, op='tokens')
-            ob.raw(f"TOKS {terms}", tt, 'token stream of str(M) differs from the model printer', key=('toks', tag, tuple(v)), nontrivial=gen.nontrivial_mv(v), site=st)
-            parsed = L.parse_multivector(str(M)).value.tolist()
-            ob.raw(f"PARSE {sidx} {N} {tt}", "ok " + core.ints([int(x) for x in parsed]), 'parse result differs from the model state machine',
-                   key=('parse', tag, tuple(v)), nontrivial=gen.nontrivial_mv(v), site=dict(layout=tag, op='parse'))
+          with common.guard(res, 'tokenizer / parser', dict(layout=tag, sig=[int(x) for x in L.sig])):
+              v = gen.int_mv(rng, N)
+              M = MultiVector(L, np.array(v, dtype=np.int64))
+              toks = _tokenize(L, str(M))
+              tt = tok_text(toks)
+              terms = ";".join(f"{i}:{1 if gr[i] == 0 else 0}:{c}" for i, c in enumerate(v) if c != 0) or '-'
+              st = dict(layout=tag, op='tokens')
+              ob.raw(f"TOKS {terms}", tt, 'token stream of str(M) differs from the model printer', key=('toks', tag, tuple(v)), nontrivial=gen.nontrivial_mv(v), site=st)
+              parsed = L.parse_multivector(str(M)).value.tolist()
+              ob.raw(f"PARSE {sidx} {N} {tt}", "ok " + core.ints([int(x) for x in parsed]), 'parse result differs from the model state machine',
+                     key=('parse', tag, tuple(v)), nontrivial=gen.nontrivial_mv(v), site=dict(layout=tag, op='parse'))
     # run the batch; malformed entries carry a custom check
     if ob.lines:
         out = core.drv_batch(ob.lines)
